@@ -37,18 +37,25 @@ Theorem getitem_spec : forall v w r k copy w' t,
 Proof. exact slice_ok. Qed.
 Print Assumptions getitem_spec.
 
-(* ---- t.join(others) / t + o : concatenation of every field, in operand order *)
-Theorem join_spec : forall v w r others ct w',
-  wf w -> step v w (OJoin r others ct) = (w', ROk) ->
-  exists t os t', nth_error (trajs w) r = Some t /\ get_all w others = Some os /\ join_post w t os w' t'.
-Proof. exact join_step_ok. Qed.
+(* ---- t.join(others, discard_overlapping_frames=dis) / t + o / md.join: every field is the concatenation, in operand
+        order, of the operand fields, operand i having lost its last entry exactly when dis is set and its last frame
+        has the coordinates of the first frame of operand i+1 ([join_plan], [jparts]); see [join_facts] *)
+Theorem join_spec : forall v w r others ct dis w',
+  step v w (OJoin r others ct dis) = (w', ROk) ->
+  exists t os t' plan, nth_error (trajs w) r = Some t /\ get_all w others = Some os /\ join_facts v w t os dis w' t' plan.
+Proof. exact join_step_full. Qed.
 Print Assumptions join_spec.
 
-Theorem mdjoin_spec : forall v w rs w',
-  wf w -> step v w (OMdJoin rs) = (w', ROk) ->
-  exists t o rest t', get_all w rs = Some (t :: o :: rest) /\ join_post w t (o :: rest) w' t'.
-Proof. exact mdjoin_step_ok. Qed.
+Theorem mdjoin_spec : forall v w rs dis w',
+  step v w (OMdJoin rs dis) = (w', ROk) ->
+  exists t o rest t' plan, get_all w rs = Some (t :: o :: rest) /\ join_facts v w t (o :: rest) dis w' t' plan.
+Proof. exact mdjoin_step_full. Qed.
 Print Assumptions mdjoin_spec.
+
+Theorem join_without_trimming_is_concatenation : forall A (ls : list (list A)),
+  jparts (map (fun _ => false) ls) ls = concat ls.
+Proof. exact @jparts_all_false. Qed.
+Print Assumptions join_without_trimming_is_concatenation.
 
 (* ---- t.stack(o): coordinates hstacked frame by frame; time and cell are the left operand's (the same arrays,
         or a contiguous copy of a Fortran-ordered cell array) *)
@@ -163,6 +170,25 @@ Example plain_history_exists :
   cinvb (fst (run v_fix (init_world specs1) ops_plain_demo)) = true.
 Proof. exact plain_demo. Qed.
 Print Assumptions plain_history_exists.
+
+(* the code gives a joined trajectory no cache.  An implementation that instead hands the operands' caches on,
+   concatenated AFTER the overlap trimming, keeps the invariant too (the property is consistency, not absence);
+   the correspondence accepts either behaviour *)
+Theorem cache_inv_join_keeping_cache : forall sps ops,
+  guarded inplace_guard v_keep (init_world sps) ops = true -> cinv (fst (run v_keep (init_world sps) ops)).
+Proof. exact run_cinv_keep_init. Qed.
+Print Assumptions cache_inv_join_keeping_cache.
+
+Example overlapping_join_trims_and_stays_consistent :
+  guarded inplace_guard v_keep (init_world specs1) ops_overlap = true /\
+  snd (run v_keep (init_world specs1) ops_overlap) = [ROk; ROk; ROk; ROk; ROk; ROk] /\
+  (let w := fst (run v_keep (init_world specs1) ops_overlap) in
+   reg_frames_cache w 3 = Some (4, Some 4) /\ reg_frames_cache w 4 = Some (5, Some 5) /\
+   reg_frames_cache w 5 = Some (8, Some 8) /\ cinvb w = true) /\
+  (let w := fst (run v_fix (init_world specs1) ops_overlap) in
+   reg_frames_cache w 3 = Some (4, None) /\ reg_frames_cache w 4 = Some (5, None) /\ cinvb w = true).
+Proof. exact overlap_demo. Qed.
+Print Assumptions overlapping_join_trims_and_stays_consistent.
 
 (* consequently the precentred shortcut reads exactly what a from-scratch computation computes *)
 Theorem rmsd_precentered_eq : forall w t c,
